@@ -609,7 +609,13 @@ func sendUDP(r *stack.Route, data buffer.VectorisedView, localPort, remotePort u
 		for _, v := range data.Views() {
 			xsum = header.Checksum(v, xsum)
 		}
-		udp.SetChecksum(^udp.CalculateChecksum(xsum, length))
+		xsum = ^udp.CalculateChecksum(xsum, length)
+		if xsum == 0 {
+			// RFC 768: a computed checksum of zero is transmitted as all
+			// ones; zero means that no checksum was generated.
+			xsum = 0xffff
+		}
+		udp.SetChecksum(xsum)
 	}
 
 	// Track count of packets sent.
